@@ -137,6 +137,15 @@ func (idx *hybridSearchIndex) AddWithID(id uint32, vector []float32, text string
 // addInternal adds a document to all relevant indexes.
 // Must be called with idx.mu held.
 func (idx *hybridSearchIndex) addInternal(id uint32, vector []float32, text string, metadata map[string]interface{}) error {
+	// Reject metadata the metadata index cannot store before adding to any
+	// sub-index: a failed Add must not leave the document half-indexed (findable
+	// by vector or text search but unknown to Remove).
+	if _, ok := idx.metadataIndex.(*RoaringMetadataIndex); ok && len(metadata) > 0 {
+		if err := validateMetadata(metadata); err != nil {
+			return fmt.Errorf("failed to add to metadata index: %w", err)
+		}
+	}
+
 	info := &documentInfo{}
 
 	// Add to vector index
